@@ -1,9 +1,9 @@
 """C03 backpressure plumbing (structural clauses)"""
-from ..rules import flow
+from ..rules import flow, delivery
 from .common import declare
 
-RULES = ['PROPAGATE', 'FLAT-RETURN', 'BOUND-PLUMB', 'NOTIFY-ON-FREE', 'EMIT-CONVERT', 'SYNC-TRANSPORT', 'AWAITABLE-RESULT']
-FLOORS = {'PROPAGATE': 40, 'FLAT-RETURN': 30, 'BOUND-PLUMB': 8, 'NOTIFY-ON-FREE': 1, 'EMIT-CONVERT': 3, 'SYNC-TRANSPORT': 3}
+RULES = ['PROPAGATE', 'FLAT-RETURN', 'BOUND-PLUMB', 'NOTIFY-ON-FREE', 'EMIT-CONVERT', 'SYNC-TRANSPORT', 'AWAITABLE-RESULT', 'SINGLE-CONSUMER', 'FIFO-END']
+FLOORS = {'PROPAGATE': 40, 'FLAT-RETURN': 30, 'BOUND-PLUMB': 8, 'NOTIFY-ON-FREE': 1, 'EMIT-CONVERT': 3, 'SYNC-TRANSPORT': 3, 'SINGLE-CONSUMER': 1, 'FIFO-END': 1}
 
 META = {
     'level': "Static value-flow analysis of every _emit/emit call site (path enumeration with an abstract shape lattice): the "
@@ -24,7 +24,7 @@ def run(ctx, R):
                      'parameters of buffer/map_async/zip are traced to their bounding primitive. Exactness of the bound under '
                      'every schedule and freedom from deadlock are not decided.')
     R.not_decided = ['in-flight <= n for every schedule', 'absence of deadlock for every schedule (only lost-wake-up shapes)']
-    declare(R, flow.RULES, RULES, FLOORS)
+    declare(R, {**flow.RULES, 'SINGLE-CONSUMER': delivery.RULES['SINGLE-CONSUMER'], 'FIFO-END': delivery.RULES['FIFO-END']}, RULES, FLOORS)
     R.run(flow.check_propagate, ctx, R)
     classes = [c for c in ctx.model.nodes if c.module.name in flow.ANCHOR_MODULES_C03 + ('streamz.river',)]
     R.run(flow.check_flat_return, ctx, R, classes)
@@ -33,3 +33,8 @@ def run(ctx, R):
     R.run(flow.check_emit_convert, ctx, R)
     R.run(flow.check_sync_transport, ctx, R)
     R.run(flow.check_awaitable_result, ctx, R, classes)
+    # the bound of map_async (parallelism) holds only while one worker takes jobs: a replaced worker must end on its stop event
+    R.run(delivery.check_single_consumer, ctx, R, [ctx.model.cls('streamz.core', 'map_async')])
+    # the awaitable update() hands back must be the one that is resolved when *that* element was delivered: a sink that keeps
+    # its pending futures in a list resolves them first-in first-out
+    R.run(delivery.check_fifo_end, ctx, R, [c for c in ctx.model.nodes if c.module.name == 'streamz.sinks'])
